@@ -258,6 +258,22 @@ func c01Eval(ctx *engine.Ctx, u *c01Univ, dir string, iss, sub int, chain []int,
 		mk := func() *c01Case { return &c01Case{Iss: iss, Sub: sub, Chain: append([]int{}, chain...)} }
 		if dir == "sound" && mask != 0 && aud < 0 {
 			oddHooksRefuse(ctx, mk(), inv, u.loader, "rules {"+ruleNames(mask)+"} are violated")
+			// the same chain behind an invocation of a command from the namespace the UCAN specifications reserve for
+			// themselves, with the argument such an invocation carries (the CID of the first proof): the alignment
+			// rules are the same for every command (the delegations grant /a: it is refused in any case)
+			if len(prf) > 0 {
+				for _, cmd := range []string{"/ucan/revoke", "/ucan"} {
+					spec, err := invocation.New(prin(iss), prin(sub), commandOf(cmd), prf, append(append([]invocation.Option{}, opts...), invocation.WithArgument("ucan", prf[0]))...)
+					if err != nil {
+						panic(err)
+					}
+					s1, s2 := bothVerdictsGuarded(spec, u.loader)
+					ctx.Eval(2)
+					if s1 == nil || s2 == nil {
+						ctx.Failf(mk(), "allowed-despite:"+ruleNames(mask)+"/invoking-"+cmd[1:], "an invocation of %s (argument ucan = first proof) with chain %v is allowed although rules {%s} are violated and the delegations grant /a", cmd, c01Describe(chain), ruleNames(mask))
+					}
+				}
+			}
 		}
 		for k, e := range []error{e1, e2} {
 			api := [2]string{"ExecutionAllowed", "ExecutionAllowedWithArgsHook"}[k]
